@@ -2188,8 +2188,9 @@ class Face3D(Base2DIn3D):
             A list of Face3D objects for sub faces.
         """
         # if sub_rect_height > parent_height, set it to just under parent_height
-        sub_rect_height = parent_height - 0.02 * parent_height if \
-            sub_rect_height >= parent_height else sub_rect_height
+        max_height = parent_height - 0.02 * parent_height
+        sub_rect_height = max_height if sub_rect_height > max_height \
+            else sub_rect_height
         # if sill_height is close to 0, set it to just above 0
         sill_hgt = 0.01 * parent_height if sill_height < 0.01 * parent_height \
             else sill_height
